@@ -48,6 +48,7 @@ func CreatePropellerUnits(
 			MerkleProof: merkleTree[i],
 			Signature:   signature,
 			ShardIndex:  ShardIndex(i),
+			Nonce:       nonce,
 			// todo(rdr): assigning one shard per unit until multi shard algo per unit
 			//            is clear to me.
 			ShardData: []Shard{shard},
